@@ -1170,12 +1170,9 @@ impl ProtocolState {
         };
 
         let decode_result = self.decoder.decode_bytes(data, &mut decode_context);
-        if decode_result.is_err() {
-            error!("[{} ms] handle_network_event_incoming_data - decode failure", self.elapsed_time_ms);
-            self.change_state(ProtocolStateType::Halted);
-            return decode_result;
-        }
 
+        // packets completed before a malformed one are handled exactly as if they had arrived in an
+        // earlier read; the decode failure is reported after them
         for mut packet in decoded_packets {
             if let MqttPacket::Publish(publish) = &mut(*packet) {
                 if let Err(error) = self.inbound_alias_resolver.resolve_topic_alias(&publish.topic_alias, &mut publish.topic) {
@@ -1205,6 +1202,12 @@ impl ProtocolState {
                 self.change_state(ProtocolStateType::Halted);
                 return handler_result;
             }
+        }
+
+        if decode_result.is_err() {
+            error!("[{} ms] handle_network_event_incoming_data - decode failure", self.elapsed_time_ms);
+            self.change_state(ProtocolStateType::Halted);
+            return decode_result;
         }
 
         Ok(())
